@@ -502,7 +502,8 @@ def build(tier, seed):
     fixed = [(1, "lf", (2,), {}), (2, "lf", (2, 2), {1: OK}), (2, "crlf", (2, 2), {0: BAD}), (2, "cr", (2, 2), {0: OK}),
              (2, "lf", (1, 2), {1: OK}), (2, "lf", (3, 2), {1: OK}), (3, "lf", (2, 2, 2), {0: OK, 1: BAD})]
     if tier == "thorough":
-        fixed += [(2, "lf", (2, 2), {}), (2, "crlf", (2, 1), {}), (3, "lf", (2, 2, 2), {1: BAD, 2: OK}), (2, "cr", (3, 2), {})]
+        fixed += [(2, "crlf", (2, 1), {}), (3, "lf", (2, 2, 2), {1: BAD, 2: OK}), (3, "cr", (2, 2, 2), {0: OK, 2: OK}),
+                  (2, "cr", (2, 2), {1: BAD})]
     for nrows, delim, widths, conc in fixed:
         mk, rp = make_fixed_write(nrows, delim, widths, conc)
         if not conc and nrows == 1:
@@ -521,7 +522,7 @@ def build(tier, seed):
     delimited = [(2, (2, 2), False, 0, False), (2, (2, 2), True, 0, False), (3, (2, 1, 2), False, 0, False),
                  (3, (2, 2, 2), False, 1, True), (2, (2, 2), False, 1, False)]
     if tier == "thorough":
-        delimited += [(3, (2, 2, 2), True, 0, False), (3, (3, 2, 2), False, 0, False), (3, (2, 2, 2), True, 1, True)]
+        delimited += [(3, (2, 2, 2), True, 0, False), (3, (3, 2, 1), False, 0, False), (3, (2, 2, 2), True, 1, True)]
     for nrows, widths, unique, header, batches in delimited:
         mk, rp = make_delimited_write(nrows, widths, unique, header, batches)
         q.append(Query("C14/delimited-write/rows=%d/w=%s%s%s%s" % (nrows, ",".join(map(str, widths)), "/unique" if unique else "",
